@@ -14,6 +14,11 @@ func (te *tableEngine) tableGameOpen() error {
 	te.lock.Lock()
 	defer te.lock.Unlock()
 
+	// 該桌已關閉或已釋放，不再開局
+	if te.table.State.Status == TableStateStatus_TableClosed || te.isReleased {
+		return nil
+	}
+
 	if te.table.State.GameState != nil {
 		fmt.Printf("[DEBUG#tableGameOpen] Table (%s) game (%s) with game count (%d) is already opened.\n", te.table.ID, te.table.State.GameState.GameID, te.table.State.GameCount)
 		return nil
